@@ -187,7 +187,7 @@ _ELEMS = {}
 
 def gen_array_elems(t, n, cs, mode, affine):
     """Contents of an array: a pure function of (type, n, content seed, mode).  A palette of 31 PRNG-generated
-    elements laid out with period 31*31, so neighbouring (and 31-apart) positions hold different values: a task
+    elements laid out with period 31*31 (or, one time in five, in runs of 1-9 equal neighbours), so neighbouring (and 31-apart) positions hold different values: a task
     that reads or writes the wrong index is visible.  Cached per run: the worlds A, B and the element-wise
     reference are built from the same element objects (assignment into an array copies the value)."""
     key = (t, n, cs, mode, affine)
@@ -200,7 +200,12 @@ def gen_array_elems(t, n, cs, mode, affine):
             pal = [make_affine(et, m) for m in pal]
         k = len(pal)
         a, b = 1 + rr.below(k - 1) if k > 1 else 0, rr.below(k)
-        el = [pal[(i * a + (i // k) * 3 + b) % k] for i in range(n)]
+        if rr.chance(0.2):
+            # runs of equal neighbours (instanced data): a task that consults a neighbouring element is visible
+            run = 1 + rr.below(9)
+            el = [pal[((i // run) * a + b) % k] for i in range(n)]
+        else:
+            el = [pal[(i * a + (i // k) * 3 + b) % k] for i in range(n)]
         if len(_ELEMS) > 16:
             _ELEMS.clear()
         _ELEMS[key] = el
